@@ -119,6 +119,10 @@ class GotranPythonCodePrinter(PythonCodePrinter):
     #         f=self._module_format("numpy.copysign"), e=self._print(e.args[0])
     #     )
 
+    def _print_Not(self, expr):
+        # Elementwise (the inherited printer emits Python's ``not``)
+        return f"numpy.logical_not({self._print(expr.args[0])})"
+
     def _print_Equality(self, expr):
         lhs, rhs = expr.args
         return f"({self._print(lhs)} == {self._print(rhs)})"
